@@ -106,7 +106,7 @@ pub fn worker(spec: &'static CheckSpec, base_seed: u64, from: u64, to: u64, stri
                 states.insert(*s);
             }
         }
-        let v = result_json(i, seed, &r, &choices, false);
+        let v = result_json(i, seed, &r, &choices, std::env::var("VERIF_FULL").is_ok());
         {
             let mut o = stdout.lock();
             writeln!(o, "R {}", v).ok();
